@@ -5,6 +5,8 @@ import (
 	"fmt"
 	"strconv"
 	"strings"
+	"sync"
+	"sync/atomic"
 	"testing"
 	"time"
 
@@ -28,6 +30,20 @@ type GRPCCase struct {
 	Scenario  bool   `json:"scenario_gun"`
 	Assert    bool   `json:"assert_postprocessor"`
 	Instances int    `json:"instances"`
+	// The target port refuses connections while instances are being started, although warm-up (reflection) worked:
+	// "always": nothing ever listens on the target port, the method descriptions come from a reflection-only listener
+	// named by `reflect_port`; "goes_away": a target of its own stops accepting connections when its first call arrives
+	// (the connections it has stay served), while a startup schedule is still starting instances. The behaviours are
+	// all "ok" then.
+	Refuse string `json:"refuse,omitempty"`
+	// goes_away: startup schedule (const: StartupOps for StartupMs; line: from StartupOps to StartupOpsTo), the rps
+	// schedule const RpsOps for 600 ms and the number of calls (ammo limit, below the schedule's tokens)
+	StartupType  string `json:"startup_type,omitempty"`
+	StartupOps   int    `json:"startup_ops,omitempty"`
+	StartupOpsTo int    `json:"startup_ops_to,omitempty"`
+	StartupMs    int    `json:"startup_ms,omitempty"`
+	RpsOps       int    `json:"rps_ops,omitempty"`
+	Limit        int    `json:"limit,omitempty"`
 }
 
 func genGRPC(t *rapid.T) GRPCCase {
@@ -49,6 +65,24 @@ func genGRPC(t *rapid.T) GRPCCase {
 	c.Instances = 1
 	if !c.Scenario {
 		c.Instances = rapid.IntRange(1, 3).Draw(t, "instances")
+	}
+	switch rapid.IntRange(0, 3).Draw(t, "refuse") {
+	case 0:
+		c.Refuse = "always"
+		c.Instances = rapid.IntRange(1, 3).Draw(t, "instancesRefused")
+	case 1:
+		c.Refuse = "goes_away"
+		c.StartupType = rapid.SampledFrom([]string{"const", "line"}).Draw(t, "startupType")
+		c.StartupOps = rapid.SampledFrom([]int{10, 20}).Draw(t, "startupOps")
+		c.StartupOpsTo = c.StartupOps + rapid.SampledFrom([]int{10, 20}).Draw(t, "startupOpsMore")
+		c.StartupMs = rapid.SampledFrom([]int{200, 300}).Draw(t, "startupMs")
+		c.RpsOps = rapid.SampledFrom([]int{30, 40, 50}).Draw(t, "rpsOps") // 18, 24, 30 tokens in 600 ms
+		c.Limit = rapid.IntRange(10, 16).Draw(t, "limit")
+	}
+	if c.Refuse != "" {
+		for i := range c.Behs {
+			c.Behs[i] = GBeh{Kind: "ok"}
+		}
 	}
 	return c
 }
@@ -99,7 +133,111 @@ func grpcSample(lines []line, scenario bool, i int) *line {
 	return l
 }
 
+// checkGRPCRefusing: the target refuses connections while instances are being started. A refused connection is the
+// failure of a call, not of the run: the run ends without an error, every call leaves one sample, a call that did not
+// reach the target carries the failure (503, gRPC Unavailable), a call the target answered is a 200.
+func checkGRPCRefusing(c GRPCCase, o *vf.Obs) error {
+	n := len(c.Behs)
+	out := pand.TempName("c19g", ".phout")
+	defer pand.Remove(out)
+	ammo, gunType, cleanup := grpcAmmo(n, c.Scenario, c.Assert)
+	defer cleanup()
+	gun := map[string]any{"type": gunType, "timeout": "400ms"}
+	pool := map[string]any{
+		"id": "p", "gun": gun, "ammo": ammo,
+		"result":  map[string]any{"type": "phout", "destination": out},
+		"rps":     map[string]any{"type": "once", "times": n + 5},
+		"startup": map[string]any{"type": "once", "times": c.Instances},
+	}
+	want := n
+	var served func() int
+	var downAt atomic.Int64 // when the target stopped accepting, ns since t0
+	t0 := time.Now()
+	switch c.Refuse {
+	case "always":
+		shared, mu := target.SharedGRPC()
+		mu.Lock()
+		defer mu.Unlock()
+		shared.ResetScript(nil)
+		rf := target.SharedGRPCReflect() // describes the services of the shared target
+		rf.Reset()
+		ga, err := target.ListenGoAway(0) // a port of its own on which nothing ever listens
+		if err != nil {
+			return fmt.Errorf("harness: %v", err)
+		}
+		defer ga.Close()
+		gun["target"] = ga.HostPort()
+		gun["reflect_port"] = rf.Port()
+		served = func() int { return len(shared.Calls()) }
+	case "goes_away":
+		ga, err := target.ListenGoAway(-1)
+		if err != nil {
+			return fmt.Errorf("harness: %v", err)
+		}
+		tg := target.NewGRPCOn(ga)
+		defer tg.Close()
+		var once sync.Once
+		tg.ResetScript(func(call *target.GCall) target.GResp {
+			once.Do(func() {
+				ga.Down() // from now on every new connection is refused; this call and its connection are served
+				downAt.Store(int64(time.Since(t0)))
+			})
+			return target.GResp{Code: codes.OK, Hello: "h", Token: "tok", UserID: 1, Items: []int64{1, 2}, OrderID: 1}
+		})
+		gun["target"] = ga.HostPort()
+		served = func() int { return len(tg.Calls()) }
+		want = c.Limit
+		ammo["limit"] = c.Limit
+		delete(ammo, "passes")
+		pool["rps"] = map[string]any{"type": "const", "ops": c.RpsOps, "duration": "600ms"}
+		startup := map[string]any{"type": "const", "ops": c.StartupOps, "duration": fmt.Sprintf("%dms", c.StartupMs)}
+		if c.StartupType == "line" {
+			startup = map[string]any{"type": "line", "from": c.StartupOps, "to": c.StartupOpsTo, "duration": fmt.Sprintf("%dms", c.StartupMs)}
+		}
+		pool["startup"] = startup
+	default:
+		return fmt.Errorf("harness: refuse %q", c.Refuse)
+	}
+	if err := runPool(pool); err != nil {
+		return fmt.Errorf("%v (the target port refuses connections: %s; a refused connection is the failure of a call, the run must go on)", err, c.Refuse)
+	}
+	lines, data, err := readPhout(out)
+	if err != nil {
+		return err
+	}
+	if len(lines) != want {
+		return fmt.Errorf("%d samples for %d calls (target %s)\n%s", len(lines), want, c.Refuse, data)
+	}
+	ok200, failed := 0, 0
+	for _, l := range lines {
+		switch l.proto {
+		case 200:
+			ok200++
+		case 503:
+			failed++
+		default:
+			return fmt.Errorf("a call to a target that either answers OK or refuses the connection (%s) left a sample that says %d, expected 200 or 503\n%s", c.Refuse, l.proto, data)
+		}
+	}
+	if got := served(); ok200 != got {
+		return fmt.Errorf("the target (%s) received and answered %d calls, but %d samples say 200 (and %d say 503)\n%s", c.Refuse, got, ok200, failed, data)
+	}
+	o.Class("grpc_target_refuses_" + c.Refuse)
+	o.ClassIf(c.Scenario, "grpc_target_refuses_scenario_gun")
+	o.ClassIf(!c.Scenario, "grpc_target_refuses_grpc_gun")
+	o.ClassIf(c.Refuse == "goes_away" && failed > 0, "grpc_goes_away_refused_seen")
+	o.ClassIf(c.Refuse == "goes_away" && downAt.Load() > 0 && time.Duration(downAt.Load()) < time.Duration(c.StartupMs/2)*time.Millisecond, "grpc_went_away_while_instances_start")
+	o.ClassIf(c.Scenario, "grpc_scenario_gun")
+	if failed > 0 {
+		o.NonTrivial() // the failure was reported and the run went on to its end
+	}
+	return nil
+}
+
 func checkGRPC(c GRPCCase, o *vf.Obs) error {
+	if c.Refuse != "" {
+		return checkGRPCRefusing(c, o)
+	}
 	tg, mu := target.SharedGRPC()
 	mu.Lock()
 	defer mu.Unlock()
